@@ -267,22 +267,31 @@ static void cmp_zero(Type *ty) {
   case TY_FLOAT:
     println("  xorps %%xmm1, %%xmm1");
     println("  ucomiss %%xmm1, %%xmm0");
-    return;
+    break;
   case TY_DOUBLE:
     println("  xorpd %%xmm1, %%xmm1");
     println("  ucomisd %%xmm1, %%xmm0");
-    return;
+    break;
   case TY_LDOUBLE:
     println("  fldz");
     println("  fucomip");
     println("  fstp %%st(0)");
+    break;
+  default:
+    if (is_integer(ty) && ty->size <= 4)
+      println("  cmp $0, %%eax");
+    else
+      println("  cmp $0, %%rax");
     return;
   }
 
-  if (is_integer(ty) && ty->size <= 4)
-    println("  cmp $0, %%eax");
-  else
-    println("  cmp $0, %%rax");
+  // The comparisons above report "unordered" like "equal" (ZF=1, with
+  // PF=1). A NaN is not equal to zero, so set ZF only for an ordered
+  // equal result.
+  println("  sete %%al");
+  println("  setnp %%dl");
+  println("  and %%dl, %%al");
+  println("  cmp $1, %%al");
 }
 
 enum { I8, I16, I32, I64, U8, U16, U32, U64, F32, F64, F80 };
